@@ -151,8 +151,20 @@ def run_case(job):
         elif k == 'kwin':
             kwargs[c['f']] = [_val(x) for x in c['vs']]
         elif k == 'or':
-            subs = [_simple(x, variant) for x in c['cs']]
-            args.append(SqlMethod._or(*subs))
+            cs = list(c['cs'])
+            okw = {}
+            # keyword operand of the OR group (appended after the positional ones, so only the last one qualifies):
+            # f=value for an '=' comparison, f=None for an IS NULL test
+            if cs and variant % 3 == 2:
+                last = cs[-1]
+                if last['k'] == 'cmp' and last['op'] == '=':
+                    okw[last['f']] = _val(last['v'])
+                    cs.pop()
+                elif last['k'] == 'isnull' and not last['neg']:
+                    okw[last['f']] = None
+                    cs.pop()
+            subs = [_simple(x, variant) for x in cs]
+            args.append(SqlMethod._or(*subs, **okw))
         else:
             args.append(_simple(c, variant))
     m = SqlMethod('SELECT id, _a, _b FROM tu' if under else 'SELECT id, a, b FROM t', order_by='id')
